@@ -19,6 +19,52 @@ contract and that this contract modifies nothing): WHAT such a record contains i
       hit) that is ordered by the records' "id" entries (record_id, under the order str_le of python strings: both uninterpreted).
       The function changes nothing (frame: engine).
 
+  model_from_dict(obj): ValueError - nothing created, no call made - when "reactions" is missing.  Otherwise, for a document with the
+      three lists (ANY length), "id", an `objective_direction` entry that may or may not be there (any string), every subset of
+      the optional keys name / compartments / notes / annotation (16 cases) and a key that is not in the table ("version"):
+      a NEW Model() is returned after exactly these calls, in this order (recorded abstract calls):
+        model.add_metabolites(L1), model.genes.extend(L2), model.add_reactions(L3), set_objective(model, D)
+        [, model.objective_direction = d], setattr(model, k, v) for the document keys k in the table id / name / notes /
+        compartments / annotation that are present - each once, in document order, with the entry's value object - and for no
+        other key;
+      L1 / L2 / L3 are NEW lists with the length of the document's list whose entry j is read_<kind>(record j): the object the
+      reader function returns for record j (a TERM, as written_<kind> above: WHAT that object is, is the reader's own proved
+      contract in contracts/c11_reader.py; the readers' preconditions - valid bounds, the record's metabolites known to the
+      model - are NOT discharged at this level);
+      D is a NEW {reaction: float} dictionary: (a) every record j whose `objective_coefficient` is present and NON-ZERO - negative
+      ones too: the seeded mutant `> 0` fails here - is the dst[j]-th entry of the local list `objective_reactions`, the reaction
+      model.reactions.get_by_id(record["id"]) looked up for it is read_reaction(record j) and it is a key of D; (b) every key x of
+      D is read_reaction(record p) for the position p of its identifier, that record's coefficient is present and non-zero and
+      D[x] is that coefficient (so: exactly the non-zero records, each with its own coefficient); neither subscript can raise
+      KeyError (obligations `record-entry-present`, `identifier-is-in-the-model`);
+      the direction of the objective installed in the new model's solver is the `objective_direction` entry when that is
+      present and "min" or "max", and "max" otherwise; the setter is called exactly in the first case, with that value.
+  lemmas(): writer post-condition, then reader post-condition: same list lengths, same order (entry j is
+      read(written(member j))), and the direction of a 'min' / 'max' model comes back.
+
+STATED precondition of model_from_dict: the identifiers of the reaction records are pairwise different (ghost inverse map
+identifier -> position, `mfd_reaction_position`); objective coefficients are finite numbers.
+ASSUMED (trusted list, keys `C11:*` below): Model() (a new empty model, direction 'max'); add_metabolites / genes.extend as recorded
+calls; add_reactions on the new model with new reactions of pairwise different identifiers: model.reactions holds exactly the
+listed reactions, in order, each indexed under its identifier (what contracts/c02_add_reactions.py proves) - used through an
+OBLIGED cut lemma in terms of the document's records; set_objective as a recorded call that installs a new objective with the
+current direction (contracts/c03_objective.py, dictionary case); the objective_direction setter for 'min' / 'max'; and
+object_id(read_<kind>(r)) == record_id(r): the object read from a record carries the record's identifier (the reader contracts).
+Engine: one ADDITIVE hook, `filter_monotone` in pyvc/comprehension.gen_to_seq (a contract module may restate or leave out the fact
+`the kept positions of a filtered comprehension are increasing`; this module leaves it out - nothing depends on the order of
+`objective_reactions` - because its trigger src[j + 1] re-fires on the terms it creates and drove every path-feasibility query of
+this function into its timeout).  Clause (a) is proved as a cut at the set_objective call from the few hypotheses it needs
+(`_relevant`: fewer hypotheses is sound), then reused: proving it at the exit among all quantifiers of the path was seed-dependent.
+
+MUTATION TRIALS (tools/mutate_and_run.sh resp. the same on one case; every one fails):
+  model_to_dict:  map(_gene_to_dict, model.reactions) -> post `genes` (sat); direction test == "max" -> post `direction` (sat);
+    stored value "max" -> `direction` (sat); reactions.sort dropped -> `reactions` (sat); obj["id"] = model.name -> `id` (sat);
+    `if not sort` -> list clauses (sat); itemgetter("name") -> ordered clause (sat).
+  model_from_dict:  `!= 0` -> `> 0` -> cut `every-record-with-a-non-zero-coefficient-is-listed` (sat); objective_direction = "max" ->
+    `direction` (unknown); "notes" dropped from the key set -> `attributes` (unknown); "version" added to it -> `attributes` (sat);
+    set_objective call dropped -> post False (sat); coefficient replaced by 1.0 / negated -> clause (b) (unknown); reactions[1:] ->
+    cut lemma of add_reactions (unknown).
+
 ASSUMED (builtins, in this module's hooks): `list.sort(key=itemgetter("id"))` permutes the list (pyvc/builtins.list_sort) and leaves
 it ordered by str_le over record_id(entry) (`record_id(r)` = r["id"]; added here, the engine's list_sort does not model the order).
 The values `model.name`, `model.compartments`, `model.notes`, `model.annotation` are what the property getters return (the model is
@@ -367,6 +413,67 @@ def _used(key):
     ASSUMED_USED[key] = REG.get(key).note
 
 
+def _objective_reactions(st):
+    """the record of the local list `objective_reactions` (the one filtered list of reaction records) and its ghost maps"""
+    flt = [v for k, v in st.ghost.items() if isinstance(k, tuple) and k and k[0] == "filter"]
+    fl = [r for r in st.objs.values() if isinstance(r, dict) and r.get("ekind") == "ref:RxnRecord" and z3.is_expr(r.get("len"))
+          and z3.is_const(z3.simplify(r["len"])) and ("filter", z3.simplify(r["len"]).decl().name()) in st.ghost]
+    if len(flt) != 1 or len(fl) != 1:
+        return None
+    return fl[0], flt[0]
+
+
+def nonzero(r):
+    return z3.And(has_coef(r), coef_of(r) != 0)
+
+
+def listed_clause(st_c, model, D, doc):
+    """every record with a non-zero coefficient (negative ones too) is the dst[j]-th entry of `objective_reactions`, the reaction
+    looked up for it is the one read from it, and that reaction is a key of the dictionary D (state st_c: when set_objective is
+    called)"""
+    got = _objective_reactions(st_c)
+    if got is None:
+        return None
+    fl, (src, dst, _) = got
+    dr = st_c.objs[D.oid]
+    if dr.get("lazy") or dr.get("pure") or not dr.get("kkind", "").startswith("ref"):
+        return None
+    n0, e0 = doc
+    _, _, rd = READERS["_reaction_from_dict"]
+    e2 = fl["elem"]
+    mr = st_c.objs[st_c.objs[model.oid]["attr:reactions"].oid]
+    eM, vM = mr["elem"], st_c.objs[mr["attr:_dict"].oid]["val"]
+    j = qv("oj")
+    return FA([j], z3.Implies(z3.And(0 <= j, j < n0, nonzero(e0[j])),
+                              z3.And(0 <= dst[j], e2[dst[j]] == e0[j], eM[vM[record_id(e2[dst[j]])]] == rd(e0[j]),
+                                     z3.Select(dr["dom"], rd(e0[j])))), patterns=[e0[j]])
+
+
+def _trigger_array(q):
+    """the name of the array the (first) trigger of a quantified formula selects from, or None"""
+    try:
+        t = q.pattern(0).children()[0]
+        if z3.is_select(t) and z3.is_const(t.arg(0)):
+            return t.arg(0).decl().name()
+    except Exception:  # noqa
+        pass
+    return None
+
+
+def _relevant(st, keep_ids, names):
+    """the quantifier-free conjuncts of the path condition plus the quantified ones that are listed (by identity) or whose first
+    trigger starts with one of the given array names: proving from FEWER hypotheses is sound and keeps the query small"""
+    out = []
+    for c in st.pc:
+        if not z3.is_quantifier(c):
+            out.append(c)
+        elif c.get_id() in keep_ids:
+            out.append(c)
+        elif c.num_patterns() and _trigger_array(c) in names:
+            out.append(c)
+    return tuple(out)
+
+
 def _mfd_call_abstract(eng, st, f, pos, kw):
     if f.a == "c11:read":
         cls, rcls, rd = READERS[f.b]
@@ -388,6 +495,19 @@ def _mfd_call_abstract(eng, st, f, pos, kw):
             raise Unsupported("set_objective(...) with these arguments")
         from pyvc.state import alloc_obj
         _used("C11:set_objective")
+        # cut (obliged from the few facts it needs, then used): which reactions are keys of the dictionary
+        doc, cut = st.ghost.get("mfd_doc_reactions"), st.ghost.get("mfd_cut")
+        if doc is not None and cut is not None and isinstance(pos[1], VObj) and pos[1].kind == "dict":
+            cl = listed_clause(st, pos[0], pos[1], doc)
+            got = _objective_reactions(st)
+            if cl is not None and got is not None:
+                from pyvc.state import State
+                fl, (src, dst, _) = got
+                mr = st.objs[st.objs[pos[0].oid]["attr:reactions"].oid]
+                names = [dst.decl().name(), fl["elem"].decl().name(), mr["elem"].decl().name()]
+                small = State(_relevant(st, {c.get_id() for c in cut}, names), st.frames, st.heap, st.objs, st.ghost)
+                eng.oblige(small, cl, "set_objective/every-record-with-a-non-zero-coefficient-is-listed", kind="side")
+                st = st.assume(cl)
         st = _event(st, "set_objective", pos[1], tuple(sorted(kw)))
         sol = st.objs[pos[0].oid]["attr:_solver"]
         st, ob = alloc_obj(st, "Objective", {"attr:direction": direction_of(st, pos[0])})
@@ -454,7 +574,7 @@ def _mfd_call_method(eng, st, recv, name, pos, kw):
                                                                 z3.Select(dr["val"], record_id(e0[j])) == j)), patterns=[e0[j]])
         eng.oblige(st.assume(a2), z3.And(n == n0, lem), "add_reactions/listed-reactions-are-found-under-the-identifiers-of-their-records",
                    kind="side")
-        st = st.assume(n == n0, lem)
+        st = st.assume(n == n0, lem).setghost("mfd_cut", (n == n0, lem))
         return [("ok", st, NONE)]
     if isinstance(recv, VObj) and recv.oid == mrec["attr:genes"].oid and name == "extend":
         if kw or len(pos) != 1 or not (isinstance(pos[0], VObj) and pos[0].kind == "list" and st.objs[pos[0].oid].get("ekind") == "ref:Gene"):
@@ -550,6 +670,11 @@ def _read_list(E, ev, key, fname):
     return [lr["len"] == n0, FA([j], z3.Implies(z3.And(0 <= j, j < n0), lr["elem"][j] == rd(e0[j])), patterns=[lr["elem"][j]])]
 
 
+def restored_direction(has, d):
+    """the direction of the model read from a document: the entry when it is present and 'min' or 'max', else 'max'"""
+    return z3.If(z3.And(has, z3.Or(d == MIN, d == MAX)), d, MAX)
+
+
 def mfd_parts(E):
     """the post-condition of model_from_dict in named groups of conjuncts"""
     res = E.res
@@ -575,26 +700,15 @@ def mfd_parts(E):
     dr = st_c.objs[D.oid] if ok else {}
     ok = ok and not dr.get("lazy") and not dr.get("pure") and dr.get("kkind", "").startswith("ref") and dr.get("vkind") == "real"
     out["objective"] = [z3.BoolVal(bool(ok))]
-    flt = [v for k, v in E.s1.ghost.items() if isinstance(k, tuple) and k and k[0] == "filter"]
-    if ok and len(flt) == 1:
+    cl = listed_clause(st_c, res, D, L(E.s0, _doc_entry(E, "reactions"))) if ok else None
+    if cl is not None:
         n0, e0 = L(E.s0, _doc_entry(E, "reactions"))
         _, _, rd = READERS["_reaction_from_dict"]
-        dst = flt[0][1]
-        fl = [r for r in E.s1.objs.values() if isinstance(r, dict) and r.get("ekind") == "ref:RxnRecord" and z3.is_expr(r.get("len"))
-              and z3.is_const(z3.simplify(r["len"])) and ("filter", z3.simplify(r["len"]).decl().name()) in E.s1.ghost]
-        if len(fl) != 1:
-            out["objective"].append(z3.BoolVal(False))
-            return out
-        e2 = fl[0]["elem"]             # the local list `objective_reactions`
-        j, x = qv("oj"), qv("ox", Ref)
-        nz = lambda r: z3.And(has_coef(r), coef_of(r) != 0)  # noqa
+        x = qv("ox", Ref)
+        nz = nonzero
         p = RXN_POS[object_id(x)]
         out["objective"] += [
-            # every record with a non-zero coefficient (negative ones too): its reaction is listed with that coefficient
-            FA([j], z3.Implies(z3.And(0 <= j, j < n0, nz(e0[j])),
-                               z3.And(0 <= dst[j], e2[dst[j]] == e0[j],        # it is the dst[j]-th entry of `objective_reactions`
-                                      z3.Select(dr["dom"], rd(e0[j])), z3.Select(dr["val"], rd(e0[j])) == coef_of(e0[j]))),
-               patterns=[e0[j]]),
+            cl,
             # nothing else is listed: a listed reaction is the one read from the record at its identifier's position, whose
             # coefficient is present, non-zero and the listed one
             FA([x], z3.Implies(z3.Select(dr["dom"], x), z3.And(0 <= p, p < n0, x == rd(e0[p]), nz(e0[p]),
@@ -612,7 +726,7 @@ def mfd_parts(E):
     else:
         d = unwrap(dv, "id")
         valid = z3.And(has, z3.Or(d == MIN, d == MAX))
-        out["direction"] = [final == z3.If(valid, d, MAX)]
+        out["direction"] = [final == restored_direction(has, d)]
     if has_dir_ev:
         out["direction"] += [valid, _b(E.eng.eq(E.s1, tr[4][1], dv)) if dv is not None else z3.BoolVal(False)]
     else:
@@ -668,3 +782,43 @@ REG.add(Contract(MD, "model_from_dict", "C11", [("obj", TCustom(_doc_record(True
                       "objective coefficients are finite numbers"))
 
 KEYS = ["model_to_dict", "model_from_dict"]
+
+
+# ================================================================ glue lemmas: model_to_dict, then model_from_dict
+def lemmas():
+    """writer post-condition followed by reader post-condition, on synthetic states, from the very clause builders of the two
+    contracts (list_clauses / _read_list / restored_direction):
+      * per kind of object: the list handed to add_metabolites / genes.extend / add_reactions has the LENGTH of the model's DictList
+        and its entry j is the object the reader returns for the record the writer returns for member j (nothing dropped, order
+        kept) - with the per-object round-trip lemmas of contracts/c11_reader.py: member j comes back with its attributes;
+      * the direction: for a model whose direction is 'min' or 'max', the model read back from what model_to_dict wrote has that
+        direction."""
+    from pyvc.engine import Engine, Obl
+    from pyvc.state import State, alloc_list, alloc_obj
+    eng = Engine(REG, HOOKS)
+    out = []
+    for (key, attr, wname), rname in zip(LISTS, ("_metabolite_from_dict", "_reaction_from_dict", "gene_from_dict")):
+        cls, rcls, rd = READERS[rname]
+        _, wf = WRITERS[wname]
+        st0 = State()
+        st0, dl = TDictList(cls).make(st0, "g_" + attr)
+        st1, lw = alloc_list(st0, "ref:" + rcls, base="g_written_" + key)
+        hyp_w = list_clauses(Env({}, st0, st1, eng=eng), st1, lw, dl, wname, z3.BoolVal(False))
+        st1, o = alloc_obj(st1, "dict", {"pure": True, "pyitems": ((key, lw),)})
+        doc = VObj(o.oid, "dict", "dict")
+        st2, lr = alloc_list(st1, "ref:" + cls, base="g_read_" + key)
+        hyp_r = _read_list(Env({"obj": doc}, st1, st2, eng=eng), ("call", lr, st2), key, rname)
+        hyps = list(st2.pc) + hyp_w + hyp_r
+        R._check_hyps(f"C11/lemma/model-round-trip/{key}", hyps)
+        n0, e0 = L(st0, dl)
+        r2 = st2.objs[lr.oid]
+        j = z3.Const("g_j", I)
+        goal = z3.And(r2["len"] == n0, z3.ForAll([j], z3.Implies(z3.And(0 <= j, j < n0), r2["elem"][j] == rd(wf(e0[j])))))
+        out.append(Obl(f"C11/lemma/model-round-trip/{key}-same-length-same-order", hyps, goal, "lemma"))
+    # direction: what model_to_dict's post-condition says about the entry (m2d_parts: present exactly when the direction is 'min',
+    # then with the value 'min'), fed into what model_from_dict's post-condition says about the model read back
+    dirx, has, d = z3.Const("g_direction", Id), z3.Bool("g_has_entry"), z3.Const("g_entry", Id)
+    hyps = [z3.Or(dirx == MIN, dirx == MAX), MIN != MAX, has == (dirx == MIN), z3.Implies(has, d == MIN)]
+    R._check_hyps("C11/lemma/model-round-trip/direction", hyps)
+    out.append(Obl("C11/lemma/model-round-trip/direction-min-or-max-is-restored", hyps, restored_direction(has, d) == dirx, "lemma"))
+    return out
